@@ -278,6 +278,11 @@ func (r *runner) classify(v []byte) int {
 			return clsTxnMem
 		}
 	}
+	for _, b := range leveldb.VerifBlockPool(r.db).VerifPooled() {
+		if overlaps(v, b) {
+			return clsPooled
+		}
+	}
 	return clsNone
 }
 
@@ -924,7 +929,7 @@ func (r *runner) checkAll() *failure {
 			s := s
 			// Snapshot.Get: "the caller should not modify the contents of the returned slice" -> arguments are
 			// poisoned, the result is only compared
-			if f := r.probeGet(s.frozen, func(k []byte) ([]byte, error) { return s.snap.Get(k, nil) }, k, 0, false, false, -1, fmt.Sprintf("snapshot#%d", si)); f != nil {
+			if f := r.probeGet(s.frozen, func(k []byte) ([]byte, error) { return s.snap.Get(k, nil) }, k, 0, false, true, -1, fmt.Sprintf("snapshot#%d", si)); f != nil {
 				return f
 			}
 		}
@@ -1007,7 +1012,9 @@ func (r *runner) step(i int, op *Op) (f *failure) {
 		s := r.snaps[op.I%len(r.snaps)]
 		r.readSeq = leveldb.VerifSnapshotSeq(s.snap)
 		defer func() { r.readSeq = 0 }()
-		return r.probeGet(s.frozen, func(k []byte) ([]byte, error) { return s.snap.Get(k, nil) }, op.K, 1, false, false, pathSnapGet, "snapshot")
+		// Snapshot.Get's comment only says "should not modify"; it is the same DB.get as DB.Get (a private copy): the
+		// result is overwritten like DB.Get's (second pass; Props/C20.v C20_snapshot_get_as_db_get)
+		return r.probeGet(s.frozen, func(k []byte) ([]byte, error) { return s.snap.Get(k, nil) }, op.K, 1, false, true, pathSnapGet, "snapshot")
 	case OSnapRel:
 		if len(r.snaps) == 0 {
 			return nil
